@@ -76,6 +76,15 @@ CORPUS = [
     Mut('c15-nan-density-not-rejected', 'torchtree/inference/mcmc/mcmc.py', '', "                if torch.isnan(log_joint_proposed) or torch.isinf(log_joint_proposed):", "                if torch.isinf(log_joint_proposed):", expect=[('C15.L', 'MCMC.run::nan-density-guard')], mode='text'),
     Mut('c15-benign-not-isfinite-guard', 'torchtree/inference/mcmc/mcmc.py', '', "                if torch.isnan(log_joint_proposed) or torch.isinf(log_joint_proposed):", "                if not torch.isfinite(log_joint_proposed):", benign=True, mode='text'),
     Mut('c15-nan-hastings-not-rejected', 'torchtree/inference/mcmc/mcmc.py', '', "            if torch.isinf(hastings_ratio) or torch.isnan(hastings_ratio):", "            if torch.isinf(hastings_ratio):", expect=[('C15.L', 'MCMC.run::nan-hastings-guard')], mode='text'),
+    Mut('c15-one-uniform-for-branch-and-magnitude', 'torchtree/inference/mcmc/gmrf_block_updating.py', '', "        length = self._scaler - 1 / self._scaler\n        if self._scaler == 1:\n", "        length = self._scaler - 1 / self._scaler\n        u = torch.rand(1)\n        if self._scaler == 1:\n",
+        expect=[('C15.U', 'propose_precision::one-use-per-uniform-draw')], mode='text',
+        more=[dict(scope='', old="        elif torch.rand(1) < length / (length + 2 * math.log(self._scaler)):\n", new="        elif u < length / (length + 2 * math.log(self._scaler)):\n", mode='text'),
+              dict(scope='', old="                1 / self._scaler + length * torch.rand(1)\n", new="                1 / self._scaler + length * u\n", mode='text')]),
+    Mut('c15-benign-uniforms-drawn-up-front', 'torchtree/inference/mcmc/gmrf_block_updating.py', '', "        length = self._scaler - 1 / self._scaler\n        if self._scaler == 1:\n", "        length = self._scaler - 1 / self._scaler\n        u1 = torch.rand(1)\n        u2 = torch.rand(1)\n        if self._scaler == 1:\n",
+        benign=True, mode='text',
+        more=[dict(scope='', old="        elif torch.rand(1) < length / (length + 2 * math.log(self._scaler)):\n", new="        elif u1 < length / (length + 2 * math.log(self._scaler)):\n", mode='text'),
+              dict(scope='', old="                1 / self._scaler + length * torch.rand(1)\n", new="                1 / self._scaler + length * u2\n", mode='text')]),
+    Mut('c15-view-proposals-notify-the-view-only', 'torchtree/core/parameter.py', 'ViewParameter', 'self.parameter.fire_parameter_changed()', 'self.fire_parameter_changed()', expect=[('C15.R', 'in-place::')]),
 ]
 for m in CORPUS:
     if m.id == 'c15-joint-before-step':
